@@ -13,8 +13,9 @@
            value times 1024 is an integer (Err 98 otherwise),
          - net.IP.UnmarshalText on dotted-quad IPv4 text,
          - pflag's own StringSlice reader (encoding/csv) on unquoted fields.
-   unicode.IsPrint is the ASCII table (isp0): texts that go through the
-   modelled scanner in the correspondence checks are ASCII.
+   unicode.IsPrint is the table isp0 (ASCII plus three printable non-ASCII
+   runes): texts that go through the modelled scanner in the correspondence
+   checks use no other non-ASCII rune.
 
    Err codes: ParseInt.e_syntax 1, e_range 2, e_overflow 3, Split's 5-7,
    ParseString.e_kind 8; here 96/97/98 unmodelled. *)
@@ -32,8 +33,9 @@ Definition e_kind : N := PS.e_kind.
 Definition e_unmodelled : N := 97.
 Definition pow2 (b : N) : N := 2 ^ b.
 
-(* unicode.IsPrint restricted to ASCII *)
-Definition isp0 : rune -> bool := mk_print [].
+(* unicode.IsPrint: ASCII plus the three non-ASCII runes the generators use in
+   scanned texts (U+00B5, U+03BC: the micro signs of duration units; U+00E9) *)
+Definition isp0 : rune -> bool := mk_print [181; 956; 233].
 
 (* ---- time.ParseDuration (fractions with a non-zero digit are not modelled) ---- *)
 Definition two63 : N := pow2 63.
